@@ -23,6 +23,8 @@ export const NEEDS = {
   slotInAttrComp: { jsx: '<div x={<A0>{f0()}</A0>} />' },
   condSlot: { jsx: '<A0>{g0 ? <B0>{f0()}</B0> : f1()}</A0>' },
   vslots: { jsx: '<A0 v-slots={{ foo: () => <B0>{f0()}</B0> }}>{f1()}</A0>' },
+  identAfterAssign: { jsx: '<A0>{cap0}</A0>', decl: 'let cap0 = "c";\ncap0 = "d";' },
+  identAfterAssignInFn: { jsx: '<A0>{cap1}</A0>', decl: 'let cap1 = "c";\nfunction setCap() { cap1 = "d"; }' },
   reassignOuter: { jsx: null, reassign: 'outer' },
   reassignSameList: { jsx: null, reassign: 'same' },
 };
